@@ -337,6 +337,33 @@ pub fn run(ctx: &Ctx) -> Report {
     if let Some(&(b, _)) = ctb.first() {
         xs.push((format!("const {:02x} x 230 (a piece on every byte)", b), vec![b; 230], 0, small_menu.clone(), f3.clone()));
     }
+    // windows whose rolling hash is exactly 0 (all-zero, and non-zero with a carry) followed by zero bytes and triggers
+    xs.push((
+        "X0 00 X0 00 00 Z 00 X0 W0 U 00 X0t 00 X0t 00 00 01".into(),
+        {
+            let x0 = corpus::CORNER_WORDS.iter().find(|w| w.0 == "X0").map(|w| w.1.to_vec()).unwrap_or_default();
+            let mut v = x0.clone();
+            v.push(0);
+            v.extend(&x0);
+            v.extend([0, 0]);
+            v.extend(corpus::Z);
+            v.push(0);
+            v.extend(&x0);
+            v.extend(corpus::W[0]);
+            v.extend(corpus::U);
+            v.push(0);
+            // the same with the window after which a zero byte ends a piece
+            let x0t = corpus::CORNER_WORDS.iter().find(|w| w.0 == "X0t").map(|w| w.1.to_vec()).unwrap_or_default();
+            v.extend(&x0t);
+            v.push(0);
+            v.extend(&x0t);
+            v.extend([0, 0, 1]);
+            v
+        },
+        0,
+        full_menu.clone(),
+        f6.clone(),
+    ));
     xs.push(("W3^34 (borders inside trigger windows)".into(), corpus::repeat(&corpus::W[3], if thorough { 70 } else { 34 }), 0, if thorough { full_menu.clone() } else { small_menu.clone() }, f3.clone()));
     // dense head, then a tail without further pieces: the slice form knows the total size up front, the
     // byte forms learn it as bytes arrive (elimination timing differs); level 1 has exactly 31 / 32 pieces
